@@ -5,16 +5,19 @@ package hz
 import (
 	"math/big"
 	"math/rand"
+	"time"
 
 	g "github.com/zenon-network/go-zenon/chain/genesis/mock"
 	"github.com/zenon-network/go-zenon/chain/nom"
 	"github.com/zenon-network/go-zenon/common/types"
+	"github.com/zenon-network/go-zenon/verifier"
 	"github.com/zenon-network/go-zenon/vm"
 	"github.com/zenon-network/go-zenon/vm/constants"
 	"github.com/zenon-network/go-zenon/vm/embedded"
 	"github.com/zenon-network/go-zenon/vm/embedded/definition"
 	"github.com/zenon-network/go-zenon/vm/vm_context"
 	"github.com/zenon-network/go-zenon/wallet"
+	"github.com/zenon-network/go-zenon/zenon/mock"
 )
 
 // Actors: the genesis users that own fused plasma.
@@ -198,4 +201,13 @@ func RandomCall(rng *rand.Rand, from types.Address, tokens []types.ZenonTokenSta
 		a[0] = types.ContractAddrByte
 		return Call{"no-such-contract", a, types.ZnnTokenStandard, big.NewInt(int64(rng.Intn(2) * 100)), nil}
 	}
+}
+
+// NewNodeEpoch is NewNode with a custom epoch duration (consensus supports 600 s as the shortest epoch).
+func NewNodeEpoch(d time.Duration) *Node {
+	verifier.ReceiverMismatchEnforcementHeight = 0
+	t := &FakeT{}
+	z := mock.NewMockZenonWithCustomEpochDuration(t, d)
+	Quiet()
+	return &Node{T: t, Z: z, Ch: z.Chain(), Cs: z.Consensus(), Sv: vm.NewSupervisor(z.Chain(), z.Consensus())}
 }
